@@ -92,4 +92,7 @@ def run(ctx):
     ctx.floor("R03b", "public &mut self methods of DbImpl reaching StorageData::write|resize", n, 4)
 
     common.pair_rule(ctx, "R03c", classes=("success",))
+    # a renamed database must keep a working write-ahead log, otherwise later transactions are not atomic
+    from rules import C05
+    C05.rename_rule(ctx)
     return 0
